@@ -9,6 +9,7 @@ import (
 	"go/token"
 	"go/types"
 	"sort"
+	"strconv"
 	"strings"
 
 	"golang.org/x/tools/go/ssa"
@@ -395,6 +396,15 @@ func importOrder(c *Check, r *Repo) {
 		{{"", "go/ast"}, {"g", "go"}, {"", "go-x/y"}},
 		{{"z", "a/b"}, {"", "a"}, {"y", "a.b"}},
 		{{"", "net/http"}, {"", "bufio"}, {"str", "strings"}},
+		// one path under several names, among them packages the runtime imports itself
+		{{"b", "bytes"}, {"", "bytes"}},
+		{{"", "bytes"}, {"b", "bytes"}},
+		{{"str", "strconv"}},
+		{{"g", "fmt"}, {"f", "fmt"}},
+		{{"z", "os"}, {"", "os/exec"}, {"a", "os"}},
+		// repeated imports
+		{{"", "os"}, {"", "os"}},
+		{{"x", "os"}, {"x", "os"}, {"", "fmt"}},
 	}
 	var bad []string
 	for _, cs := range cases {
@@ -419,19 +429,59 @@ func importOrder(c *Check, r *Repo) {
 				bad = append(bad, em.Err)
 				return
 			}
-			var paths []string
-			if s, ok := fm.tree.field("Imports").v.(*SliceV); ok && s != nil {
-				for _, e := range s.elems {
-					p, _, _ := strings.Cut(e.(string), "=")
-					paths = append(paths, p)
+			// what the template prints for the list, whatever the representation of its elements
+			var got []imp
+			specs, err := printedImports(r, fm.it, fm.tree)
+			if err != nil {
+				bad = append(bad, err.Error())
+				return
+			}
+			for _, sp := range specs {
+				got = append(got, imp{sp[0], sp[1]})
+			}
+			show := func(l []imp) string {
+				var out []string
+				for _, i := range l {
+					if i.alias != "" {
+						out = append(out, i.alias+" "+strconv.Quote(i.path))
+					} else {
+						out = append(out, strconv.Quote(i.path))
+					}
+				}
+				return strings.Join(out, ", ")
+			}
+			asked := func(l []imp) string { return "grammar imports [" + show(l) + "]: " }
+			// gofmt's order: by path, then by name
+			sorted := append([]imp{}, got...)
+			sort.SliceStable(sorted, func(i, j int) bool {
+				if sorted[i].path != sorted[j].path {
+					return sorted[i].path < sorted[j].path
+				}
+				return sorted[i].alias < sorted[j].alias
+			})
+			if show(got) != show(sorted) {
+				bad = append(bad, asked(cs)+fmt.Sprintf("imports are emitted in the order [%s]; gofmt sorts by path, then by name: [%s]", show(got), show(sorted)))
+			}
+			seen := map[imp]int{}
+			for _, g := range got {
+				seen[g]++
+				if seen[g] == 2 {
+					bad = append(bad, asked(cs)+"import "+show([]imp{g})+" is emitted twice")
 				}
 			}
-			sorted := append([]string{}, paths...)
-			sort.Strings(sorted)
-			if strings.Join(paths, " ") != strings.Join(sorted, " ") {
-				bad = append(bad, fmt.Sprintf("imports are emitted in the order [%s]; gofmt sorts by path: [%s]", strings.Join(paths, " "), strings.Join(sorted, " ")))
+			want := map[imp]bool{}
+			for _, i := range cs {
+				want[i] = true
+				if seen[i] == 0 {
+					bad = append(bad, asked(cs)+"import "+show([]imp{i})+" is not emitted (emitted: ["+show(got)+"])")
+				}
+			}
+			for _, g := range got {
+				if !want[g] && g.alias != "" {
+					bad = append(bad, asked(cs)+"import "+show([]imp{g})+" is emitted but the grammar does not ask for it")
+				}
 			}
 		}()
 	}
-	c.Decide(len(bad) == 0, "R-import-order", "Compile/imports are emitted sorted by import path", "", fmt.Sprintf("%d import sets with aliases and nested paths evaluated through the first pass: the emitted order is the path order gofmt produces", len(cases)), strings.Join(uniq(bad), "; "))
+	c.Decide(len(bad) == 0, "R-import-order", "Compile/imports are emitted once each, with their names, in gofmt's order", "", fmt.Sprintf("%d import sets (aliases, nested paths, one path under several names, packages the runtime imports itself, repetitions) evaluated through the first pass: every import of the grammar is emitted once with its name, in gofmt's order (path, then name)", len(cases)), strings.Join(uniq(bad), "; "))
 }
